@@ -94,7 +94,7 @@ theorem Keeps.openRound (e : EP) (r : OpenReq) : Keeps e (openRound e r).1 := by
         Keeps.insertPending e fid _ (by intro i hc; cases hc)
       simp only
       split
-      · exact g.trans (Keeps.same rfl rfl)
+      · exact Keeps.same rfl rfl
       · exact (Keeps.enqFrame _ _).after (g.trans (Keeps.same rfl rfl))
 
 theorem Keeps.openRejected (e : EP) (req : Nat) (final : Bool) : Keeps e (openRejected e req final).1 :=
